@@ -27,7 +27,7 @@ ANCHORS = [
     "raggedshape.py::build_indices",
     "raggedarray/indexablearray.py::IndexableArray._get_element",
 ]
-VK = ["scalar", "flat", "flatlist", "colvec", "collist", "ragged", "bad_same_total", "bad_total", "bad_rows"]
+VK = ["scalar", "flat", "flatlist", "colvec", "collist", "ragged", "bad_same_total", "bad_total", "bad_rows", "bad_onerow"]
 FLOOR_TAGS = ["vk:" + v for v in VK] + ["mask:scalar", "mask:flat", "r:int", "r:slice+1", "r:slice+k", "r:slice-", "r:list", "r:mask", "r:ell",
                                         "recv:fresh", "recv:lazyrows", "recv:lazycols+2", "recv:lazycols-1", "recv:lazychain", "values:hostile-floats",
                                         "c:none", "c:int+", "c:int-", "c:slice+1", "c:slice+k", "c:slice-", "sel-has-empty-row", "e-first", "e-last", "e-mid", "allempty", "norows"]
@@ -59,7 +59,7 @@ def applicable(kind, vk, nrows_sel):
         return kind == "ND"
     if vk in ("colvec", "collist"):
         return kind == "RA" and nrows_sel >= 1
-    if vk in ("ragged", "bad_same_total", "bad_total", "bad_rows"):
+    if vk in ("ragged", "bad_same_total", "bad_total", "bad_rows", "bad_onerow"):
         return kind == "RA"
     return False
 
@@ -74,6 +74,11 @@ def bad_rows_of(sel_lens, how):
         return L
     if how == "bad_rows":
         return L + [0] if len(L) % 2 == 0 else ([0] + L)
+    if how == "bad_onerow":
+        # a single row whose flat data numpy would broadcast over the selection: k != 1 selected rows, all of the same length 0 or 1
+        if len(L) != 1 and len(set(L)) <= 1 and (not L or L[0] in (0, 1)):
+            return [L[0] if L else 1]
+        return None
     # same total, different lengths: move one cell between rows
     src = [i for i, l in enumerate(L) if l > 0]
     if not src or len(L) < 2:
@@ -271,6 +276,10 @@ def _directed():
         yield mk_case(L, [3, 0], None, False, "ragged", dtype)
         yield mk_case(L, 4, None, False, "flat", dtype)
     # README forms
+    for lens_ in ([1, 1, 1], [1, 1], [0, 0, 0], [1, 2, 1, 1]):
+        yield mk_case(lens_, slice(None), None, False, "bad_onerow")
+        yield mk_case(lens_, [0, 2] if len(lens_) > 2 else [0, 1], slice(0, 1), True, "bad_onerow")
+        yield mk_case(lens_, slice(0, 0), None, False, "bad_onerow")
     yield mk_case([2, 3, 1], 0, None, False, "flatlist")
     yield mk_case([2, 3, 1, 0], slice(1, 3), None, False, "collist")
     for lens, mask in [([3, 1, 0, 2], [1, 0, 1, 1, 0, 1]), ([3, 1, 0, 2], [0] * 6), ([3, 1, 0, 2], [1] * 6), ([0, 0], []), ([], []), ([0, 4, 0], [0, 1, 1, 0])]:
